@@ -79,6 +79,10 @@ def parkingX (zone : Grid) (i : Int) : Option Rat :=
 def parkingYStart (sy ey : Rat) : Rat := if sy ≤ ey then sy + 3 else sy - 3
 def parkingYEnd (sy ey : Rat) : Rat := if sy < ey then ey - 3 else ey + 3
 
+/-- `ilist.map(f, ilist.range(n))` for the two parking-row functions -/
+def parkingYs (f : Rat → Rat → Rat) (ys ye : List Rat) (n : Nat) : Option (List Rat) :=
+  (List.range n).mapM fun i => (ys[i]?).bind fun a => (ye[i]?).bind fun b => some (f a b)
+
 def rearrangeOps (zone : Grid) (sx sy dx dy : List Int) : Option (List Op) :=
   if sx.length ≠ dx.length ∨ sy.length ≠ dy.length then none else
   if !(sortedStrict sx && sortedStrict sy && sortedStrict dx && sortedStrict dy) then none else do
@@ -88,8 +92,8 @@ def rearrangeOps (zone : Grid) (sx sy dx dy : List Int) : Option (List Op) :=
   let ye := end_.yPositions
   let srcPx ← sx.mapM (parkingX zone)
   let dstPx ← dx.mapM (parkingX zone)
-  let srcPy ← (List.range sy.length).mapM fun i => do some (parkingYStart (← ys[i]?) (← ye[i]?))
-  let dstPy ← (List.range sy.length).mapM fun i => do some (parkingYEnd (← ys[i]?) (← ye[i]?))
+  let srcPy ← parkingYs parkingYStart ys ye sy.length
+  let dstPy ← parkingYs parkingYEnd ys ye sy.length
   let srcParking := Grid.fromPositions srcPx srcPy
   let dstParking := Grid.fromPositions dstPx dstPy
   let mid := Grid.fromPositions srcParking.xPositions dstParking.yPositions
